@@ -200,6 +200,11 @@ var c09DeriveMap = []string{
 	"{inner:m, l:h}",
 	"m.put(\"l\", h)",
 	"m.put(\"n\"+v, v).put(\"o\"+i, i)",
+	"m+{yy:i}",
+	"m+{p:v, q:i}",
+	"m.accept((k,x)->k!=\"k0\")",
+	"(m+{w:v}).accept((k,x)->k!=\"w\")",
+	"m.eval()",
 }
 
 func genC09(r *rng, tier string) *Case {
@@ -220,7 +225,10 @@ func genC09(r *rng, tier string) *Case {
 	isMap := map[int]bool{}
 	// initial handles
 	mk := func(slot int) {
-		switch r.intn(6) {
+		switch r.intn(7) {
+		case 6:
+			ops = append(ops, Op{Kind: "eval", Fn: fn("{a:1,b:2}+{c:i}", "i", "v"), Args: []Arg{{K: "int", I: 3}, {K: "int", I: 0}}, Consume: 0, Store: slot + 1})
+			isMap[slot] = true
 		case 0:
 			ops = append(ops, Op{Kind: "eval", Fn: fn("numbers(i).map(x->x*2)", "i", "v"), Args: []Arg{{K: "int", I: pick(r, 0, 1, 4, 9, 16)}, {K: "int", I: 0}}, Consume: 0, Store: slot + 1})
 		case 1:
@@ -255,6 +263,7 @@ func genC09(r *rng, tier string) *Case {
 		mk(1)
 	}
 	observeAll()
+	lastMapParent, lastListParent := -1, -1
 	steps := r.rangeInt(2, 10)
 	if tier == "thorough" {
 		steps = r.rangeInt(2, 12)
@@ -270,9 +279,16 @@ func genC09(r *rng, tier string) *Case {
 		}
 		slot := len(live)
 		i, v := pick(r, 0, 1, 2, 3, 7), pick(r, 5, 6, 7, 100)
-		if len(maps) > 0 && (len(lists) == 0 || r.chance(0.3)) {
+		if len(maps) > 0 && (len(lists) == 0 || r.chance(0.4)) {
 			text := pick(r, c09DeriveMap...)
-			args := []Arg{{K: "handle", I: pick(r, maps...)}, {K: "int", I: i}, {K: "int", I: v}}
+			parent := pick(r, maps...)
+			if lastMapParent >= 0 && r.chance(0.6) {
+				parent = lastMapParent // a sibling of the previous derivation
+			} else if r.chance(0.5) {
+				parent = maps[len(maps)-1] // branch from the youngest map
+			}
+			lastMapParent = parent
+			args := []Arg{{K: "handle", I: parent}, {K: "int", I: i}, {K: "int", I: v}}
 			names := []string{"m", "i", "v"}
 			if strings.Contains(text, "h") && len(lists) > 0 {
 				names = append(names, "h")
@@ -286,9 +302,14 @@ func genC09(r *rng, tier string) *Case {
 			text := pick(r, c09Derive...)
 			// bias to branching from the same parent
 			parent := pick(r, lists...)
-			if r.chance(0.5) {
+			if lastListParent >= 0 && r.chance(0.4) {
+				parent = lastListParent // a sibling of the previous derivation
+			} else if r.chance(0.3) {
 				parent = lists[0]
+			} else if r.chance(0.4) {
+				parent = lists[len(lists)-1]
 			}
+			lastListParent = parent
 			args := []Arg{{K: "handle", I: parent}, {K: "handle", I: pick(r, lists...)}, {K: "int", I: i}, {K: "int", I: v}}
 			cons := pick(r, 0, 0, 0, -1, 2)
 			ops = append(ops, Op{Kind: "eval", Fn: fn(text, "h", "g", "i", "v"), Args: args, Consume: cons, Store: slot + 1})
@@ -512,6 +533,11 @@ func judgeC09(name string, sc *Script, r *RunOut, o *Obs) {
 		key := fmt.Sprintf("h%d/%d", op.Args[0].I, op.Fn)
 		if !outs[j].Ok {
 			continue // a failing observation (injected fault) is no value
+		}
+		if strings.Contains(texts[op.Fn], "string()") && strings.Contains(outs[j].Val, "{") {
+			// the string form of an evaluated (Go-map backed) map has no specified key order;
+			// maps are compared through the key-sorted canonical observer only
+			continue
 		}
 		if f, ok := first[key]; !ok {
 			first[key] = outs[j].Val
